@@ -232,6 +232,31 @@ func (set *TemplateSet) FromFile(filename string) (*Template, error) {
 	return newTemplate(set, filename, false, buf)
 }
 
+// fromFileRelative loads the template that a tag of tpl refers to by name. Like FromFile it
+// asks the loaders in order; each loader resolves the name itself, relative to tpl, so a
+// loader after the first one can serve a name that it spells differently.
+func (set *TemplateSet) fromFileRelative(tpl *Template, filename string) (*Template, error) {
+	atomic.StoreUint32(&set.firstTemplateCreated, 1)
+
+	if tpl != nil && tpl.isTplString {
+		// a string template has no path of its own to resolve against
+		tpl = nil
+	}
+	name, _, fd, err := set.resolveTemplate(tpl, filename)
+	if err == nil {
+		var buf []byte
+		buf, err = io.ReadAll(fd)
+		if err == nil {
+			return newTemplate(set, name, false, buf)
+		}
+	}
+	return nil, &Error{
+		Filename:  set.resolveFilename(tpl, filename),
+		Sender:    "fromfile",
+		OrigError: err,
+	}
+}
+
 // RenderTemplateString is a shortcut and renders a template string directly.
 func (set *TemplateSet) RenderTemplateString(s string, ctx Context) (string, error) {
 	atomic.StoreUint32(&set.firstTemplateCreated, 1)
